@@ -5,15 +5,31 @@ Require Import SkV.C06.Model SkV.C06.Gen SkV.C06.Wrap SkV.C06.WrapSem SkV.C06.Ge
 Import ListNotations.
 Open Scope Q_scope.
 
-Theorem gen_percentage_error_eq : forall t p s, gen_percentage_error t p s = pct_err s t p.
-Proof. intros t p s. destruct s; reflexivity. Qed.
+(* the per-step loss each function computes (all private helpers inlined, whatever they are called
+   and wherever they live) is the loss of the structure claimed for it in gen_struct - hence, with
+   gen_struct_eq below, the published point loss: percentage error with symmetric switch and EPS
+   clamp, relative error with signed EPS clamp, asymmetric threshold switch, absolute / squared *)
+Theorem gen_point_eq : forall n o t p bn e, gen_point n o t p bn = Some e ->
+  match fam (gen_struct n o) with
+  | FSimple b k _ => e = point1 b k t p bn
+  | _ => False
+  end.
+Proof.
+  intros n o t p bn e H. destruct o as [sym rt sp thr lf rf rk ra].
+  destruct n; cbn in H; try discriminate H; injection H as <-; cbn;
+    try reflexivity; destruct sym; reflexivity.
+Qed.
 
-Theorem gen_relative_error_eq : forall t p b, gen_relative_error t p b = rel_err t p b.
-Proof. intros. reflexivity. Qed.
-
-Theorem gen_asymmetric_error_eq : forall t p thr l r,
-  gen_asymmetric_error t p thr l r = pwf (PAsym thr l r) (t - p).
-Proof. intros. reflexivity. Qed.
+(* ... and the model's loss vectors are exactly that loss applied per horizon step *)
+Theorem pt_is_pointwise : forall b k c,
+  pt b k c = match b with
+             | BRel => map3 (point1 b k) (c_true c) (c_pred c) (c_bench c)
+             | _ => map2 (fun t p => point1 b k t p 0) (c_true c) (c_pred c)
+             end.
+Proof.
+  intros b k c. destruct b; unfold pt, base_errs, map2, map3, point1, base1;
+    rewrite map_map; reflexivity.
+Qed.
 
 (* every public function has the structure of its published definition *)
 Theorem gen_struct_eq : forall n o, gen_struct n o = textbook n o.
